@@ -162,6 +162,10 @@ def computed_cases():
         cases.append(Case(f"type/{name}", f"TT :: comptime {{ {code} }};\n{probe}", exp))
     # strings
     cases.append(Case("str/local", 'c :: comptime { "hello" }; pr(i64.(strlen(c))); pr(i64.(strcmp(c, "hello")));', "5 0 "))
+    # a global array literal whose items are constants narrower than the element type (they are converted while the data is laid out)
+    cases.append(Case("computed-global/array-literal-of-narrower-constants",
+                      "pr(GARR_w[0]); pr(GARR_w[1]); pr(GARR_w[2]); pr(i64.(GARR_u[0])); pr(i64.(GARR_u[1]));", "3000 200 7 200 5 ",
+                      decls="GA_w :: 3000;\nGB_w : u8 : 200;\nGARR_w :: i64.[GA_w, GB_w, 7];\nGARR_u :: u64.[GB_w, 5];\n"))
     cases.append(Case("str/global", 'pr(i64.(strlen(GS1))); pr(i64.(strcmp(GS1, "comptime string")));', "15 0 ",
                       decls='GS1 :: comptime { "comptime string" };'))
     return cases
